@@ -1,5 +1,5 @@
 (* C10 — invariants and proofs about the life-cycle model. *)
-From Coq Require Import List Arith Lia Bool.
+From Coq Require Import List Arith Lia Bool ZifyBool ZifyNat.
 From Dastard Require Import C10.Conc C10.Model C10.Spec.
 Import ListNotations.
 
@@ -165,3 +165,59 @@ Proof.
   all: try (destruct core0; cbn in *; inv_hyps; try contradiction; try discriminate).
   all: finish_inv.
 Qed.
+
+Ltac st_simpl := unfold st_move, mv in *; cbn [sloc_eqb cnt n_idle n_locked n_switch n_atabort n_wait n_atwaited n_post n_atret n_ret_ok n_ret_err n_done_ok n_done_err] in *.
+
+Lemma stop_needs_starter_done n c s a s' :
+  Inv n c s -> step c s (TStop a) = Some s' -> starter_done s = true.
+Proof.
+  intros [Hc Ht Hl Hm Hi Hd Ha Hp] Hs.
+  destruct (starter_done s) eqn:E; [reflexivity|exfalso].
+  specialize (Hi eq_refl). open_state s. cbn in *.
+  unfold total in Ht; cbn in Ht.
+  assert (c2 = 0 /\ c3 = 0 /\ c4 = 0 /\ c5 = 0 /\ c6 = 0 /\ c7 = 0 /\ c8 = 0 /\ c9 = 0 /\ c10 = 0 /\ c11 = 0 /\ c12 = 0) by lia.
+  inv_hyps; subst. unfold step in Hs; cbn in Hs.
+  unfold step_stop in Hs; cbn in Hs. rewrite E in Hs.
+  destruct a; cbn in Hs; try discriminate. rewrite andb_false_r in Hs. discriminate.
+Qed.
+
+Ltac guards :=
+  repeat match goal with
+  | H : (_ && _) = true |- _ => apply andb_prop in H; destruct H
+  | H : (0 <? _) = true |- _ => apply Nat.ltb_lt in H
+  | H : (_ =? _) = true |- _ => apply Nat.eqb_eq in H
+  | H : negb _ = true |- _ => apply negb_true_iff in H
+  end.
+
+Lemma inv_step_stop n c s a s' : Inv n c s -> step c s (TStop a) = Some s' -> Inv n c s'.
+Proof.
+  intros HI Hs. pose proof (stop_needs_starter_done _ _ _ _ _ HI Hs) as Hdone.
+  destruct HI as [Hc Ht Hl Hm Hi Hd Ha Hp]. open_state s.
+  cbn in Hdone. destruct starter0; try discriminate Hdone. clear Hdone Hi.
+  destruct c as [k f w fx fr].
+  unfold step in Hs; cbn in Hc; subst crashed0; cbn [crashed] in Hs;
+    unfold step_stop, move, starter_done in Hs; cbn -[Nat.ltb Nat.eqb] in *.
+  destruct r; cbn -[Nat.ltb Nat.eqb] in *; inv_hyps.
+  all: unfold core_facts, sst_facts, prod_facts, core_exiting in *; cbn -[Nat.ltb Nat.eqb] in *.
+  all: destruct a; destr_match Hs; inv_hyps; guards; try subst lock0; st_simpl; cbn -[Nat.ltb Nat.eqb] in *; try contradiction; try discriminate.
+  all: try (destruct sst0; cbn in *; inv_hyps; try contradiction; try discriminate).
+  all: try solve [finish_inv].
+  all: destruct core0; cbn in *; inv_hyps; try contradiction; try discriminate; finish_inv.
+Qed.
+
+Lemma inv_step n c s t s' : Inv n c s -> step c s t = Some s' -> Inv n c s'.
+Proof.
+  destruct t.
+  - apply inv_step_starter.
+  - apply inv_step_core.
+  - apply inv_step_prod.
+  - apply inv_step_stop.
+Qed.
+
+Lemma inv_reachable n B c s : Reachable (step c) (Initial n B) s -> Inv n c s.
+Proof.
+  apply (invariant_ind _ _ (step c) (Initial n B) (Inv n c)).
+  - intros s0 H0. eapply inv_initial; eassumption.
+  - intros; eapply inv_step; eassumption.
+Qed.
+
